@@ -31,7 +31,7 @@ MANIFEST = {
             "fractional (0.3,0.7,0.1), +7a-5c} x displacement on the fractional grid {-2.5..2.5}^3 (step 1/2 quick = 1331, "
             "1/4 thorough = 9261 per base; exact and with a low-discrepancy jitter whose phase is VERIF_SEED) x pair shapes "
             "(forward, reversed, far pairs up to 5 cells apart, i==j, repeated, empty) x opt x periodic x {compute_distances, "
-            "compute_displacements, compute_distances_t on all 9 frame pairs, find_closest_contact (per frame: atom 0 against each of the 7 index "
+            "compute_displacements, compute_distances_t on all 9 frame pairs (12 rows: runs, chains and reverse chains as adjacent rows), find_closest_contact (per frame: atom 0 against each of the 7 index "
             "classes mod 7 of the grid atoms, the swapped call, three 5-atom groups against a class)}; plus compact-group trajectories for every skewed cell (every frame holds one "
             "2-atom pair or 4-atom cluster with bounding-box diagonal below half the shortest edge; frames = short grid "
             "displacements and s*v for every lattice vector v shorter than the shortest edge, which have a closer image); plus "
@@ -40,7 +40,8 @@ MANIFEST = {
             "over all lattice images (search range asserted sufficient after basis reduction) computed from the stored "
             "float32 data. Judged: displacement - (r2-r1) is an integer combination of that frame's cell vectors; distance = "
             "|displacement|; orthorhombic: distance = d* always; skewed: distance = d* when d* < half the smallest width of "
-            "the cell as given and >= d* always; opt == reference path; _t == static call on re-stacked frames; no cell or "
+            "the cell as given (minus a float32 margin 64*eps32*w/2 + 2*tol: pairs ON the domain edge are excluded and counted) "
+            "and >= d* always; opt == reference path; _t == static call on re-stacked frames; no cell or "
             "periodic=False == Euclid. Tolerance 8*eps32*(2|r12|+|a|+|b|+|c|). Right level: the kernels are straight-line "
             "float code with shortcuts per cell class; a designed grid that contains every shortcut, judged by an "
             "independent search, decides the property on this bounded input family.",
@@ -240,8 +241,12 @@ def _evaluate(spec, cells, xyz32, kw, kind, pairs, n1, rev, rep, groups, cc_fram
     NP = len(pairs)
     p0, p1 = pairs[:, 0], pairs[:, 1]
     empty = np.zeros((0, 2), dtype=np.int32)
-    times = np.array([(f, (f + k) % F) for f in range(F) for k in range(min(F, 2 if spec.get("type") == "compact" else 3))],
-                     dtype=np.int32)
+    # time pairs: per origin frame f the lags 0, 2, 1 (compact jobs: 0, 1), so that a row's first frame equals the previous
+    # row's first frame (runs) or the previous row's second frame (chains (f,f+1) -> (f+1,f+1)); then the reverse chain
+    # (f+1, f) in which a row's second frame is the previous row's first.  The ORDER of the rows is part of the design:
+    # kernels may carry state from one row to the next.  For 3 frames every one of the 9 frame pairs occurs.
+    lags = (0, 1) if (spec.get("type") == "compact" or F < 3) else (0, 2, 1)
+    times = np.array([(f, (f + k) % F) for f in range(F) for k in lags] + [((f + 1) % F, f) for f in range(F)], dtype=np.int32)
     NT = len(times)
 
     def mimg(rr, fidx):
@@ -273,7 +278,9 @@ def _evaluate(spec, cells, xyz32, kw, kind, pairs, n1, rev, rep, groups, cc_fram
         dstar, nstar = mimg(r, np.arange(F))
         tolP = tolp(r, np.arange(F))
         hw = np.array([0.5 * grids.cell_widths(Vst[f]).min() for f in range(F)])
-        indom = np.array([np.ones(NP, bool) if ortho[f] else dstar[f] < hw[f] for f in range(F)])
+        dm = [gc.in_domain(dstar[f], hw[f], tolP[f]) for f in range(F)]
+        indom = np.array([np.ones(NP, bool) if ortho[f] else dm[f][0] for f in range(F)])
+        acc.n["pairs_within_margin_of_domain_edge"] += int(sum(0 if ortho[f] else dm[f][1][:n1].sum() for f in range(F)))
         acc.n["pairs_in_domain"] += int(indom[:, :n1].sum())
         acc.n["pairs_beyond_domain"] += int((~indom[:, :n1]).sum())
         nontriv = np.any(nstar != 0, axis=-1)                    # the min image is not the plain difference
@@ -396,7 +403,10 @@ def _evaluate(spec, cells, xyz32, kw, kind, pairs, n1, rev, rep, groups, cc_fram
                     fc = times[:, which]
                     ds, ns = mimg(rt, fc)
                     tl = tolp(rt, fc)
-                    dom = np.array([np.ones(NP, bool) if ortho[fc[i]] else ds[i] < hw[fc[i]] for i in range(NT)])
+                    dmt = [gc.in_domain(ds[i], hw[fc[i]], tl[i]) for i in range(NT)]
+                    dom = np.array([np.ones(NP, bool) if ortho[fc[i]] else dmt[i][0] for i in range(NT)])
+                    if which == 0:
+                        acc.n["t_pairs_within_margin_of_domain_edge"] += int(sum(0 if ortho[fc[i]] else dmt[i][1].sum() for i in range(NT)))
                     e_eq = np.where(dom, np.abs(DT - ds), 0.0) / tl
                     e_lo = np.maximum(ds - DT, 0) / tl
                     e = np.maximum(e_eq, e_lo)
@@ -470,7 +480,12 @@ def _evaluate(spec, cells, xyz32, kw, kind, pairs, n1, rev, rep, groups, cc_fram
                     tl = float(gc.tol_disp(rr).max())
                 mstar = float(dm.min())
                 dpair = float(dm[list(g1).index(a1), list(g2).index(a2)])
-                judged_equal = (not per) or ortho[f] or mstar < hw[f]
+                # skewed cells: equality only when the closest pair is inside the minimum-image domain by the float32 margin
+                # and no other pair near the domain edge could be reported instead
+                inside, band = (True, False) if ((not per) or ortho[f]) else gc.in_domain(mstar, hw[f], tl)
+                judged_equal = bool(inside)
+                if band:
+                    acc.n["closest_contact_within_margin_of_domain_edge"] += 1
                 e_lo = max(mstar - dist, 0.0)
                 acc.ratio["closest-never-below"] = max(acc.ratio["closest-never-below"], e_lo / tl)
                 if e_lo > tl:
@@ -567,8 +582,9 @@ def run(ctx):
         "axes": {"cells": names, "stacks": STACKS, "bases": BASE_NAMES, "modes": ["exact", "jit"],
                  "grid_step": jobs[0]["step"], "grid_points_per_base": res[0]["K"], "pairs_per_frame": res[0]["NP"],
                  "opt": [True, False], "periodic": [True, False],
-                 "time_pairs": "(f, f), (f, f+1), (f, f+2) mod n_frames for every frame f (all 9 pairs for 3 frames; compact jobs: "
-                               "(f, f), (f, f+1))",
+                 "time_pairs": "rows (f,f), (f,f+2), (f,f+1) for every frame f (mod n_frames; compact jobs (f,f), (f,f+1)), then the "
+                               "reverse chain (f+1,f): all 9 frame pairs for 3 frames, with runs (same first frame), chains "
+                               "(first frame = previous row's second) and reverse chains as adjacent rows",
                  "compact_cells": compact, "compact_shapes": ["pair (2 atoms per frame)", "cluster (4 atoms per frame)"],
                  "pair_list_length_classes": BLOCK_SIZES,
                  "functions": ["compute_distances", "compute_displacements", "compute_distances_t", "find_closest_contact"]},
@@ -584,7 +600,12 @@ def run(ctx):
         "pair_sublist_calls_compared_with_full_list": int(tot["pair_list_length_classes"]),
         "closest_contact_calls": int(tot["closest_contact_calls"]),
         "closest_contact_beyond_domain_only_lower_bound_judged": int(tot["closest_contact_beyond_domain"]),
-        "excluded_within_margin": {"opt_vs_ref_displacement_other_equally_long_image": int(tot["opt_ref_tie_other_image"]),
+        "excluded_within_margin": {"pairs_within_float32_margin_of_the_minimum_image_domain_edge_(equality_not_judged)":
+                                   int(tot["pairs_within_margin_of_domain_edge"]),
+                                   "t_pairs_within_margin_of_domain_edge": int(tot["t_pairs_within_margin_of_domain_edge"]),
+                                   "closest_contact_calls_within_margin_of_domain_edge":
+                                   int(tot["closest_contact_within_margin_of_domain_edge"]),
+                                   "opt_vs_ref_displacement_other_equally_long_image": int(tot["opt_ref_tie_other_image"]),
                                    "reversed_pair_other_equally_long_image": int(tot["reversed_pair_tie_other_image"])},
         "core_calls_that_rewrote_callers_unitcell_vectors": int(tot["core_calls_that_rewrote_callers_unitcell_vectors"]),
         "comparisons_per_check": {k[4:]: int(v) for k, v in tot.items() if k.startswith("cmp_")},
